@@ -136,7 +136,88 @@ fn guarded<T>(what: &str, any_wrong: bool, cx: &mut Case, f: impl FnOnce() -> T)
     }
 }
 
+/// Route (E): a source text with several roots.  `main` contains 2..4 disconnect nodes whose
+/// holes are named after other roots of the forest (`Forest::to_witness_node` fills each hole
+/// with a copy of that root); the hole expression is polymorphic and is used at a different word
+/// type at each place, either under ONE shared hole name or under a name of its own.  Each use
+/// is fed by a witness of the right type from the name -> value map and its output is compared
+/// with a constant by an equality jet.  All candidates are right-typed, so any Err, panic,
+/// ill-typed witness or non-decodable result is a violation.
+fn forest_holes_route(cx: &mut Case) -> CaseResult {
+    cx.label("route E: forest with named hole expressions");
+    let m = cx.src.range(2, 4);
+    let shared_name = cx.src.chance(170);
+    let hole_expr = cx.src.below(2); // 0: iden, 1: pair iden iden
+    cx.label(if shared_name { "route E: one hole name used by several disconnect nodes" } else { "route E: one hole name per disconnect node" });
+    let mut text = String::new();
+    let mut witness: HashMap<Arc<str>, Value> = HashMap::new();
+    let mut checks = vec![];
+    let n_names = if shared_name { 1 } else { m };
+    for k in 0..n_names {
+        text.push_str(&format!("h{} := {}\n", k, if hole_expr == 0 { "iden" } else { "pair iden iden" }));
+    }
+    for i in 0..m {
+        let bits = [8usize, 16, 32, 64][cx.src.below(4)];
+        let v = cx.src.u64() & if bits == 64 { u64::MAX } else { (1u64 << bits) - 1 };
+        let equal = cx.src.chance(200);
+        let c = if equal { v } else { v ^ 1 };
+        let value = match bits {
+            8 => Value::u8(v as u8),
+            16 => Value::u16(v as u16),
+            32 => Value::u32(v as u32),
+            _ => Value::u64(v),
+        };
+        witness.insert(Arc::from(format!("w{}", i).as_str()), value);
+        let hole = if shared_name { 0 } else { i };
+        let post = if hole_expr == 0 { "drop iden" } else { "drop (take iden)" };
+        text.push_str(&format!("w{} := witness\n", i));
+        text.push_str(&format!(
+            "chk{i} := comp (pair (comp (comp w{i} (disconnect (drop (pair unit iden)) ?h{hole})) ({post})) (const 0x{c:0width$x})) jet_eq_{bits}\n",
+            i = i,
+            hole = hole,
+            post = post,
+            c = c,
+            width = bits / 4,
+            bits = bits
+        ));
+        checks.push(format!("chk{}", i));
+    }
+    // main := comp (pair chk0 (pair chk1 ..)) unit
+    let mut acc = checks.pop().unwrap();
+    while let Some(c) = checks.pop() {
+        acc = format!("pair {} ({})", c, acc);
+    }
+    text.push_str(&format!("main := comp ({}) unit\n", acc));
+    cx.fp.write(text.as_bytes());
+    cx.nontrivial = true;
+    cx.set_sample(|| json!({"route": "E", "text": text}));
+    let forest = Forest::parse::<simplicity::jet::Core>(&text).map_err(|e| harness_error(format!("route E text rejected: {}\n{}", e, text)))?;
+    let dummy = Prog { nodes: vec![Ir::Unit], root: 0, family: Family::Core };
+    for pruned in [false, true] {
+        let what = if pruned { "route E (to_witness_node + finalize_pruned)" } else { "route E (to_witness_node + finalize_unpruned)" };
+        let r = guarded(what, false, cx, || {
+            types::Context::with_context(|ctx| {
+                let node = forest.to_witness_node(&ctx, &witness)?;
+                Some(if pruned { node.finalize_pruned(&CoreEnv::new()).map_err(|e| e.to_string()) } else { node.finalize_unpruned().map_err(|e| e.to_string()) })
+            })
+        })
+        .map_err(|e| format!("{}\n  text:\n{}", e, text))?;
+        match r {
+            Some(Some(Ok(redeem))) => {
+                check_result(what, &redeem, &dummy, false, cx).map_err(|e| format!("{}\n  text:\n{}", e, text))?;
+            }
+            Some(Some(Err(e))) => return Err(format!("{} fails although every witness has the right type: {}\n  text:\n{}", what, e, text)),
+            Some(None) => return Err(harness_error("route E: forest without main")),
+            None => {}
+        }
+    }
+    Ok(())
+}
+
 pub fn case(cx: &mut Case) -> CaseResult {
+    if cx.src.chance(24) {
+        return forest_holes_route(cx);
+    }
     let g = gen_unit_program(cx, false, true);
     let prog = &g.prog;
     if !prog.has("witness") {
